@@ -34,6 +34,7 @@ Definition obs_eqb (a b : obs) : bool :=
   | OGrow n1 l1, OGrow n2 l2 => Z.eqb n1 n2 && list_eqb zz_eqb l1 l2
   | OGrowErr e1 n1 l1, OGrowErr e2 n2 l2 => err_eqb e1 e2 && Z.eqb n1 n2 && list_eqb zz_eqb l1 l2
   | OSnap x, OSnap y => snap_eqb x y
+  | OShape s1 k1, OShape s2 k2 => list_eqb Z.eqb s1 s2 && ty_eqb k1 k2
   | _, _ => false
   end.
 
